@@ -1,4 +1,5 @@
 import MxModel.Proofs.EditMachineRun
+import MxModel.Proofs.ExecResolveDerived
 /-!
 # How the regime `WF` is guaranteed for definitions read off a structure
 
@@ -164,5 +165,91 @@ theorem nsScoped_callN (x : String) (key : Key) (k : Res → SProg) (onRef : Opt
     cases b with
     | cell c => exact fun r => hk r ns
     | ref r => exact ⟨fun _ => ⟨x, hx⟩, fun o => hr o ns⟩
+
+
+/-! ### the machine's definitions are those of `SM.structEnv` (PROOF2) -/
+
+/-- the formula of a member: the source its entry carries, resolved in the namespace of ITS space -/
+theorem envOf_formula_member (P : Params) (t : Tabs) (st : SM.St) (ha : AllocOK t st) (q : Path) (n : String)
+    (m : Member) (hm : st.mem .cells q n = some m) (key : Key) :
+    (envOf P t st).formula (t.cid q n, key) = resolve (nsAt t st q) (P.srcOf m.payload key) := by
+  have hd := cellOf_cid t q n (ha.cells q n (by rw [hm]; rfl))
+  simp only [envOf, cellInfo, hd, beq_self_eq_true, if_true, hm, Option.map_some]
+
+/-- without model-level references the namespace of the machine is `SM.nsOf` -/
+theorem nsAt_eq_nsOf (t : Tabs) (st : SM.St) (hg : st.globals = []) (gid : String → RefId) (q : Path) :
+    nsAt t st q = SM.nsOf ⟨t.cid, t.rid, gid⟩ st q := by
+  funext x
+  unfold nsAt SM.nsOf
+  simp [hg]
+
+/-- **at every member the machine's formula is the formula `SM.structEnv` assigns** (the definitions
+`C03.derived_cells_formula_is_definers_source_in_sub_space` speaks about), for any decoding `D` that is
+right at the member -/
+theorem envOf_agrees_with_structEnv (P : Params) (t : Tabs) (st : SM.St) (ha : AllocOK t st)
+    (hg : st.globals = []) (se : SEnv) (D : SM.Dec) (gid : String → RefId) (q : Path) (n : String) (m : Member)
+    (hm : st.mem .cells q n = some m) (key : Key)
+    (hdec : D.cellOf (t.cid q n) = (q, n)) (hnum : D.pathOf (D.num q) = q) :
+    (envOf P t st).formula (t.cid q n, key) =
+      (SM.structEnv se ⟨t.cid, t.rid, gid⟩ D P.srcOf P.valOf st).toEnv.formula (t.cid q n, key) := by
+  rw [envOf_formula_member P t st ha q n m hm key, nsAt_eq_nsOf t st hg gid q]
+  exact (SM.structEnv_formula se ⟨t.cid, t.rid, gid⟩ D P.srcOf P.valOf st q n key m hdec hnum hm).symm
+
+
+/-- the machine has no model-level references: `setGlobal` / `delGlobal` are not among its operations and
+no other operation touches them -/
+theorem globals_step (P : Params) (w : W) (op : Op) (hi : SM.Inv w.sm) (hg : w.sm.globals = []) :
+    (step P w op).sm.globals = [] := by
+  cases op with
+  | struct o =>
+    simp only [step]
+    split
+    · rename_i hsup
+      cases hop : w.sm.apply P.kw o with
+      | none => exact hg
+      | some st' =>
+        simp only
+        have heff := apply_spec P.kw w.sm st' (keysOK_of_inv hi) o hop
+        cases o with
+        | newSpace parent name bases refs => rw [heff.2.2.1, hg]
+        | delSpace p => rw [heff.globals, hg]
+        | newCells p name fname v => rw [heff.1.globals, hg]
+        | setFormula p name v => rw [heff.1.globals, hg]
+        | delCells p name => rw [heff.1.globals, hg]
+        | renameCells p old new => rw [heff.1.globals, hg]
+        | addBases p bs => rw [heff.globals, hg]
+        | removeBases p bs => rw [heff.globals, hg]
+        | setRef p name v => rw [heff.1.globals, hg]
+        | delRef p name => rw [heff.1.globals, hg]
+        | setGlobal name => cases hsup
+        | delGlobal name => cases hsup
+    · exact hg
+  | eval q n key => simp only [step]; split <;> exact hg
+  | setValue q n key v => simp only [step]; split <;> exact hg
+  | clearAt q n key => exact hg
+  | clear q n => exact hg
+  | clearAll q n => exact hg
+
+theorem globals_run (P : Params) : ∀ (ops : List Op) (w : W), SM.Inv w.sm → w.sm.globals = [] →
+    (run P w ops).sm.globals = [] := by
+  intro ops
+  induction ops with
+  | nil => intro w _ hg; exact hg
+  | cons op rest ih =>
+    intro w hi hg
+    refine ih (step P w op) ?_ (globals_step P w op hi hg)
+    cases op with
+    | struct o =>
+      simp only [step]
+      split
+      · cases hop : w.sm.apply P.kw o with
+        | none => exact hi
+        | some st' => exact inv_apply P.kw w.sm st' o hi hop
+      · exact hi
+    | eval q n key => simp only [step]; split <;> exact hi
+    | setValue q n key v => simp only [step]; split <;> exact hi
+    | clearAt q n key => exact hi
+    | clear q n => exact hi
+    | clearAll q n => exact hi
 
 end MxModel.Edit
